@@ -239,11 +239,11 @@ func mLazyEager(b []byte) {
 	nd.Assert(mEq(canonL2, canonE), "content unchanged after forcing every lazy field")
 }
 
-//verif:props=C17 bounds=VNode(opaque,lazy-self-recursive-child);all-byte-strings<=3(quick)/5(thorough) maxsteps=10000000 need=accepted|rejected|child_left_lazy
+//verif:props=C17 bounds=VNode(opaque,lazy-self-recursive-child);all-byte-strings<=3(quick)/4(thorough) maxsteps=10000000 need=accepted|rejected|child_left_lazy
 func H_M6_lazy_uniform() {
 	N := 3
 	if nd.Thorough() {
-		N = 5
+		N = 4
 	}
 	mLazyEager(nd.Bytes(N))
 }
@@ -252,11 +252,11 @@ func H_M6_lazy_uniform() {
 // optionally preceded/followed by a second child record or a scalar field, so that valid,
 // invalid, repeated and out-of-order lazy children with bodies up to 4 bytes are all covered.
 //
-//verif:props=C17 bounds=VNode;child-body<=2(quick)/4(thorough)-free-bytes;optional-second-record(child<=1-byte-body-or-int-field)-before-or-after maxsteps=10000000 need=accepted|rejected|child_left_lazy
+//verif:props=C17,C05 bounds=VNode;child-body<=2(quick)/3(thorough)-free-bytes;optional-second-record(child<=1-byte-body-or-int-field)-before-or-after maxsteps=10000000 need=accepted|rejected|child_left_lazy
 func H_M6_lazy_child() {
 	M := 2
 	if nd.Thorough() {
-		M = 4
+		M = 3
 	}
 	n := nd.Int(0, M)
 	body := nd.BytesN(n)
@@ -300,20 +300,20 @@ func mFlavours(open, opq *MessageInfo, po, pq pointer, b []byte) {
 	nd.Assert(so == sq && vo.initialized == vq.initialized, "validators agree")
 }
 
-//verif:props=C29,C10 bounds=VReq-vs-VReqO;all-byte-strings<=4(quick)/6(thorough) maxsteps=8000000
+//verif:props=C29,C10 bounds=VReq-vs-VReqO;all-byte-strings<=4(quick)/5(thorough) maxsteps=8000000
 func H_M7_flavours_req() {
 	N := 4
 	if nd.Thorough() {
-		N = 6
+		N = 5
 	}
 	mFlavours(vMI_Req(), vMI_ReqO(), pointer{p: unsafe.Pointer(new(VReq))}, pointer{p: unsafe.Pointer(new(VReqO))}, nd.Bytes(N))
 }
 
-//verif:props=C29,C11 bounds=VScalars2-vs-VScalarsO;all-byte-strings<=3(quick)/5(thorough) maxsteps=8000000
+//verif:props=C29,C11 bounds=VScalars2-vs-VScalarsO;all-byte-strings<=3(quick)/4(thorough) maxsteps=8000000
 func H_M7_flavours_scalars() {
 	N := 3
 	if nd.Thorough() {
-		N = 5
+		N = 4
 	}
 	mFlavours(vMI_Scalars2(), vMI_ScalarsO(), pointer{p: unsafe.Pointer(new(VScalars2))}, pointer{p: unsafe.Pointer(new(VScalarsO))}, nd.Bytes(N))
 }
@@ -464,11 +464,11 @@ func vMI_LazyReq() *MessageInfo {
 // complete iff the fast-path flag is set or checkInitializedPointer returns nil. That verdict
 // must be the same with and without lazy decoding.
 //
-//verif:props=C10,C17 bounds=VLazyReq{lazy-child-with-required-fields};all-byte-strings<=4(quick)/6(thorough) maxsteps=10000000
+//verif:props=C10,C17 bounds=VLazyReq{lazy-child-with-required-fields};all-byte-strings<=4(quick)/5(thorough) maxsteps=10000000
 func H_M6_lazy_required() {
 	N := 4
 	if nd.Thorough() {
-		N = 6
+		N = 5
 	}
 	b := nd.Bytes(N)
 	mi := vMI_LazyReq()
@@ -506,11 +506,11 @@ func vNodeUnknown(x *VNode, depth int) int {
 // access, i.e. including raw pass-through of lazily stored children) contains no unknown field
 // anywhere in the tree.
 //
-//verif:props=C09,C17 bounds=VNode;child-record(body<=2(quick)/4(thorough)-free-bytes)+optional-unknown-field;default-resolver maxsteps=10000000
+//verif:props=C09,C17 bounds=VNode;child-record(body<=2(quick)/3(thorough)-free-bytes)+optional-unknown-field;default-resolver maxsteps=10000000
 func H_M6_lazy_discard() {
 	M := 2
 	if nd.Thorough() {
-		M = 4
+		M = 3
 	}
 	n := nd.Int(0, M)
 	b := append([]byte{0x4a, byte(n)}, nd.BytesN(n)...)
